@@ -774,6 +774,9 @@ type runningStep struct {
 	closed                atomic.Bool
 	// Store channels for sending pre-calculated signal outputs to other steps?
 	// Store channels for receiving pre-calculated signal inputs from other steps?
+
+	// cancelledInputAvailable is set when the input of the cancelled stage (stop_if) was provided.
+	cancelledInputAvailable bool
 }
 
 func (r *runningStep) CurrentStage() string {
@@ -808,8 +811,7 @@ func (r *runningStep) ProvideStageInput(stage string, input map[string]any) erro
 	case string(StageIDRunning):
 		return nil
 	case string(StageIDCancelled):
-		r.provideCancelledInput(input)
-		return nil
+		return r.provideCancelledInput(input)
 	case string(StageIDClosed):
 		return nil
 	case string(StageIDDeployFailed):
@@ -922,16 +924,21 @@ func (r *runningStep) provideStartingInput(input map[string]any) error {
 	return nil
 }
 
-func (r *runningStep) provideCancelledInput(input map[string]any) {
+func (r *runningStep) provideCancelledInput(input map[string]any) error {
 	// Note: The calling function must have the step mutex locked
+	if r.cancelledInputAvailable {
+		return fmt.Errorf("cancelled input provided more than once")
+	}
+	r.cancelledInputAvailable = true
 	// Cancel if the step field is present and isn't false
 	if input["stop_if"] == nil {
-		return
+		return nil
 	}
 	if input["stop_if"] != false {
 		r.cancelled = true
 		r.cancelStep()
 	}
+	return nil
 }
 
 func (r *runningStep) hasCancellationHandler() bool {
@@ -1369,7 +1376,6 @@ func (r *runningStep) runStage(forceCloseTimeoutMS int64) error {
 	if result.Error != nil {
 		return result.Error
 	}
-
 	// The step only declares the outputs of the schema that was read when the workflow was prepared.
 	if _, declared := r.stepSchema.Outputs()[result.OutputID]; !declared {
 		return fmt.Errorf(
